@@ -474,13 +474,24 @@ func refFlow(r *Run, wantHF, wantImg bool) {
 				nSites++
 				arg := c.Common().Args[h.pi]
 				okFlow := false
+				skipped := false
 				for _, rl := range byFn[fn] {
 					if relKind(rl.Type) == h.kind && rl.ID.Val == arg {
 						okFlow = true
+						// …and that relationship is created on EVERY path that reaches the reference
+						// (a path that re-uses an existing id skips the creation: the id then belongs to a
+						// relationship whose target nobody checked)
+						if !mustPassThrough(fn, c, []ssa.Instruction{rl.ID}) {
+							skipped = true
+						}
 					}
 				}
-				r.Check("ref-flow", fmt.Sprintf("%s:%s-reference", shortName(fn), h.kind), c.Pos(), okFlow,
-					fmt.Sprintf("%s passes an id to %s; it must be the very id stored in the %s relationship created by the same call", shortName(fn), shortName(h.fn), h.kind))
+				why := fmt.Sprintf("%s passes an id to %s; it must be the very id stored in the %s relationship created by the same call", shortName(fn), shortName(h.fn), h.kind)
+				if okFlow && skipped {
+					okFlow = false
+					why += " — on some path the reference is set without that relationship being created (an existing id is re-used: it may point at a differently named part of an opened package)"
+				}
+				r.Check("ref-flow", fmt.Sprintf("%s:%s-reference", shortName(fn), h.kind), c.Pos(), okFlow, why)
 			}
 		})
 	}
